@@ -29,6 +29,7 @@ from ._helper import (
     NamingConvention,
     _convert_name_to_convention,
     _create_name_annotation,
+    _escape_comment_text,
     _get_shortest_public_reexport,
     _replace_if_safeds_keyword,
 )
@@ -895,7 +896,7 @@ class StubsStringGenerator:
         if not description:
             return ""
 
-        full_docstring = self._create_docstring_description_part(description, indentations)
+        full_docstring = _escape_comment_text(self._create_docstring_description_part(description, indentations))
         return f"{indentations}/**\n{indentations} * {full_docstring}{indentations} */\n"
 
     def _create_sds_docstring(
@@ -979,7 +980,7 @@ class StubsStringGenerator:
 
         # Open and close the docstring
         if full_docstring:
-            full_docstring = f"{indentations}/**\n{full_docstring}{indentations} */\n"
+            full_docstring = f"{indentations}/**\n{_escape_comment_text(full_docstring)}{indentations} */\n"
 
         return full_docstring
 
